@@ -108,6 +108,7 @@ fn main() {
         "C09" => ("model_checking", exhaust::seqnr::run(&ctx)),
         "C10" => ("model_checking", props::c10::run(&ctx)),
         "C11" => ("model_checking", exhaust::wire::run(&ctx)),
+        "C13" => ("fault_enumeration", props::sockets::c13(&ctx)),
         "C14" => ("model_checking", props::c14::run(&ctx)),
         "C15" => ("model_checking", exhaust::cubic::run(&ctx)),
         "C16" => ("model_checking", exhaust::rtte::run(&ctx)),
@@ -133,6 +134,7 @@ fn replay_file(_ctx: &Ctx, path: &str) -> i32 {
         "exhaust" => exhaust::replay(&v),
         "duo" => duo::replay(&v),
         "solo" => solo::bfs::replay(&v),
+        "sock" => props::sockets::replay(&v),
         _ => machinery_error(&format!("unknown engine {engine:?} in replay file")),
     }
 }
